@@ -8,13 +8,14 @@ def run(tier, seed, replay=None):
     ck = vlib.Check("C15", tier, seed, "model_checking")
     binary = vlib.build_harness()
     # exhaustive model of doClose against explicit syncs, the watcher and its goroutines, the distributor and other closers
-    big = dict(Closers="{1,2,3}", NG=2, NE=2, FIXED=True, ORDER='"code"') if tier == "quick" else dict(Closers="{1,2,3}", NG=3, NE=2, FIXED=True, ORDER='"code"')
-    m = vlib.tlc("SubscriberClose", ("sc.cfg", vlib.cfg_text(big, ["NoPanic", "CloseIsFinal"], properties=["QuietAfterClose"])), timeout=3000, tag="c15mc", deadlock=True)
+    big = dict(Closers="{1,2,3}", NG=2, NE=2, FIXED=True, ORDER='"code"', NR=1, REGSEL='"distDone"') if tier == "quick" else dict(Closers="{1,2,3}", NG=3, NE=2, FIXED=True, ORDER='"code"', NR=2, REGSEL='"distDone"')
+    m = vlib.tlc("SubscriberClose", ("sc.cfg", vlib.cfg_text(big, ["NoPanic", "CloseIsFinal", "RefusedOnlyWhenGone"], properties=["QuietAfterClose"])), timeout=3000, tag="c15mc", deadlock=True)
     ck.add_tlc("SubscriberClose", m, "every interleaving of 3 Close callers with 2 explicit syncs, the watcher, 2-3 announcement goroutines and the distributor: no send on a closed "
                "channel, Close is final, nothing happens after it returned, no deadlock (TLC deadlock check on)")
-    for name, cc, want in (("pinned doClose (no wait for the distributor) must violate CloseIsFinal", dict(Closers="{1}", NG=1, NE=1, FIXED=False, ORDER='"code"'), "CloseIsFinal"),
-                           ("closing inEvents before asyncWG.Wait must violate NoPanic", dict(Closers="{1}", NG=1, NE=1, FIXED=True, ORDER='"events-first"'), "NoPanic")):
-        v = vlib.tlc("SubscriberClose", ("scv.cfg", vlib.cfg_text(cc, ["NoPanic", "CloseIsFinal"])), workers=2, timeout=600, tag="c15v", deadlock=True)
+    for name, cc, want in (("pinned doClose (no wait for the distributor) must violate CloseIsFinal", dict(Closers="{1}", NG=1, NE=1, FIXED=False, ORDER='"code"', NR=0, REGSEL='"distDone"'), "CloseIsFinal"),
+                           ("a registration falling back on the closing channel must violate RefusedOnlyWhenGone", dict(Closers="{1}", NG=1, NE=1, FIXED=True, ORDER='"code"', NR=1, REGSEL='"closing"'), "RefusedOnlyWhenGone"),
+                           ("closing inEvents before asyncWG.Wait must violate NoPanic", dict(Closers="{1}", NG=1, NE=1, FIXED=True, ORDER='"events-first"', NR=0, REGSEL='"distDone"'), "NoPanic")):
+        v = vlib.tlc("SubscriberClose", ("scv.cfg", vlib.cfg_text(cc, ["NoPanic", "CloseIsFinal", "RefusedOnlyWhenGone"])), workers=2, timeout=600, tag="c15v", deadlock=True)
         ck.cov["tlc_runs"].append({"name": name, "violated": v.violated})
         if v.violated != want:
             raise vlib.Infra("model variant '%s' is no longer refuted (got %s)" % (name, v.violated))
